@@ -270,17 +270,19 @@ func checkIgnoreLists(r *core.Run) {
 		if fn == nil {
 			continue
 		}
-		res := r.Resolver(fn)
-		for i, c := range callsIn(r, fn, "node/keeper.Keeper.RandomSP") {
+		anchor := fn
+		// the selection call may sit in a helper extracted from the function: every frame is searched
+		for i, dc := range deepCalls(r, anchor, "node/keeper.Keeper.RandomSP") {
+			fn := dc.Fr.Fn
+			res := r.Resolver(fn)
 			total++
-			call := c.(*ssa.Call)
+			call := dc.Call.(*ssa.Call)
 			t := res.Of(call)
 			ign := t.Args[1]
 			key := core.Key("T-ignore", fnName, fmt.Sprintf("RandomSP#%d ignore argument", i+1))
 			if ign.String() == "nil" {
 				// allowed only for a brand-new order: the call must be dominated by Operation == 1 (create) in GetSps
-				ck := &guard.Checker{P: r.P, Fn: fn, Res: res}
-				if ok, _ := ck.MustPass(call.Block(), []guard.Atom{guard.Eq("#2.Operation", "1")}); ok && fnName == "sao/keeper.Keeper.GetSps" {
+				if ok, _ := mustPassDeep(r, anchor, effSite{Ins: call, Chain: dc.Fr.Chain}, []guard.Atom{guard.Eq("#2.Operation", "1")}); ok && fnName == "sao/keeper.Keeper.GetSps" {
 					r.Discharge("T-ignore", key, r.P.Pos(call.Pos()), "nil ignore list only for operation 1 (a new order has no shards yet)")
 				} else {
 					r.Violate("T-ignore", key, r.P.Pos(call.Pos()), "RandomSP is called with a nil ignore list where the order may already have shards: a provider already holding (or having timed out on) a shard can be chosen again")
@@ -298,7 +300,29 @@ func checkIgnoreLists(r *core.Run) {
 				r.Undecide("T-ignore", key, r.P.Pos(call.Pos()), "ignore argument not identified")
 				continue
 			}
-			ok, why := accumulatesAll(r, fn, ignV)
+			// a list received as a parameter of an extracted helper is the caller's argument
+			lfn, lfr := fn, dc.Fr
+			for {
+				pa, isParam := ignV.(*ssa.Parameter)
+				if !isParam || len(lfr.Chain) == 0 {
+					break
+				}
+				parent := parentFrame(r, anchor, lfr)
+				if parent == nil {
+					break
+				}
+				moved := false
+				up := lfr.Chain[len(lfr.Chain)-1].Common().Args
+				for j, q := range lfn.Params {
+					if q == pa && j < len(up) {
+						ignV, lfn, lfr, moved = up[j], parent.Fn, *parent, true
+					}
+				}
+				if !moved {
+					break
+				}
+			}
+			ok, why := accumulatesAll(r, lfn, ignV)
 			if ok {
 				r.Discharge("T-ignore", key, r.P.Pos(call.Pos()), why)
 			} else {
